@@ -183,7 +183,12 @@ def condense_dataset(
         # (these are *all* scalar features in the case of .tdms data).
         for feat in features:
             if feat not in h5_cond["events"]:
-                hw.store_feature(feat=feat, data=ds[feat])
+                fdata = ds[feat]
+                if len(fdata) == 0:
+                    # empty feature datasets (not copied by `rtdc_copy`)
+                    # cannot be stored
+                    continue
+                hw.store_feature(feat=feat, data=fdata)
 
         # collect warnings log
         if warnings_list:
